@@ -89,6 +89,17 @@ int main (int argc, char** argv)
       Spinor<double> e = m.get_field ();
       char what[200]; snprintf (what, 200, "field of the 100%% polarized mode (%g,%g,%g,%g)*%g is finite", q[0], q[1], q[2], q[3], scale);
       expect_true (what, std::isfinite (e.x.real()) && std::isfinite (e.x.imag()) && std::isfinite (e.y.real()) && std::isfinite (e.y.imag()));
+    }
+    // the boundary |p| = I at many rounding patterns: I = fl (|p|) for pseudo-random directions over many decades
+    uint64_t st = 2024; auto rnd = [&st] () { st = st * 6364136223846793005ULL + 1442695040888963407ULL; return double ((st >> 11) % 9007199254740992ULL) / 9007199254740992.0 * 2.0 - 1.0; };
+    for (unsigned k=0; k<4000; k++) {
+      double scale = std::pow (10.0, 6.0 * rnd ()); double q = scale * rnd (), u = scale * rnd (), v = scale * rnd ();
+      double I = std::sqrt (q*q + u*u + v*v); if (!(I*I >= q*q + u*u + v*v) && !(I >= std::sqrt (q*q + u*u + v*v))) continue;
+      gauss_reset (); mode m; m.set_normal (&gasdev);
+      m.set_Stokes (Stokes<double> (I, q, u, v));
+      Spinor<double> e = m.get_field ();
+      char what[240]; snprintf (what, 240, "field of the 100%% polarized mode (%a,%a,%a,%a) is finite", I, q, u, v);
+      expect_true (what, std::isfinite (e.x.real()) && std::isfinite (e.x.imag()) && std::isfinite (e.y.real()) && std::isfinite (e.y.imag()));
     } }, 1);
 #endif
   symx::finish ();
